@@ -1,0 +1,9 @@
+//go:build verif
+
+package main
+
+// Contract for the command-line entry point. This file contains comments only.
+
+//@ func main
+//@   props C19 C15 C20
+//@   ensures [status] execok     -- main returns normally (exit status 0) only if the command succeeded; otherwise os.Exit(non-zero)
